@@ -9,7 +9,7 @@ TOPS = [samlp.STATUS_SUCCESS, samlp.STATUS_REQUESTER, samlp.STATUS_RESPONDER,
         samlp.STATUS_VERSION_MISMATCH, "urn:example:unknown-top"]
 SECONDS = sorted(R.STATUSCODE2EXCEPTION.keys())        # the documented table, read from the code under test
 N2 = len(SECONDS)                                      # index N2 = absent, N2+1 = unknown code
-VERSIONS = ["2.0", "1.0", "1.1", "2.1", "3.0", "x", ""]
+VERSIONS = ["2.0", "1.0", "1.1", "2.1", "3.0", "x", "", "2", "2.00", "+2.0", " 2.0", "2.0 ", "2e0", "02.0", "nan", "2,0"]
 
 # Independent copy of the documented mapping (docs: one exception class per standard status code):
 # class name is "Status" + CamelCase of the last URN component.
@@ -93,17 +93,51 @@ def request_version(kind: int, version: int):
     return ok, True, "accepted=%s" % acc
 
 
+def version_string(v: str, is_request: bool):
+    """Version as an arbitrary string: accepted iff it is exactly '2.0'."""
+    ck = Clock(1000000)
+    t = ck.stamp(1, 1000000)
+    if is_request:
+        msg = samlp.AuthnRequest(id="id-q1", version=v, issue_instant=t, issuer=saml.Issuer(text=SP_ID))
+        rq = AuthnRequest(HandOverSec(), [], ["http://idp/sso"], 0)
+        rq.signature_check = lambda xml, **kw: msg
+        acc = False
+        try:
+            rq.loads("<concrete/>", None)
+            acc = rq.verify() is not None
+        except Exception:
+            acc = False
+    else:
+        a = mk_assertion(t, {"not_on_or_after": ck.stamp(2, 1000600), "audiences": [[SP_ID]]},
+                         {"not_on_or_after": ck.stamp(3, 1000600), "in_response_to": REQ_ID, "recipient": ACS}, {})
+        resp = mk_response(t, [a], version=v)
+        ar = mk_authn_response(resp)
+        acc = False
+        try:
+            ar.loads("<concrete/>", False)
+            acc = ar.verify() is not None
+        except Exception:
+            acc = False
+    return acc == (v == "2.0"), True, "accepted=%s" % acc
+
+
 CONDITIONS = [
     Cond(name="status", fn="status",
          params=[("top", "int"), ("second", "int"), ("has_msg", "bool"), ("has_assertion", "bool"), ("version", "int")],
          pre=["0 <= top < %d" % len(TOPS), "0 <= second <= %d" % (N2 + 1), "0 <= version < %d" % len(VERSIONS)],
-         partitions={"quick": [{"top": t, "version": v} for t in range(len(TOPS)) for v in (0, 1, 5)],
+         partitions={"quick": [{"top": t, "version": v} for t in range(len(TOPS)) for v in (0, 1, 5)] +
+                              [{"top": 0, "version": v, "second": N2} for v in range(6, len(VERSIONS))],
                      "thorough": [{"top": t, "version": v} for t in range(len(TOPS)) for v in range(len(VERSIONS))]},
          timeout={"quick": 300, "thorough": 600}, path_timeout=60,
          functions=["response.StatusResponse.status_ok", "response.StatusResponse._verify", "response.AuthnResponse.loads/verify/parse_assertion",
                     "response.STATUSCODE2EXCEPTION", "validate.valid_instance"],
          bounds="top-level code in {Success, Requester, Responder, VersionMismatch, unknown}; second-level: all 21 table codes, absent, unknown; "
-                "status message present/absent; assertion present/absent; Version in {2.0,1.0,1.1,2.1,3.0,x,''} (quick: 2.0, 1.0, x) - finite table, exhaustive"),
+                "status message present/absent; assertion present/absent; Version from a 16-entry catalogue incl. strings that only float() equates with 2.0 ('2', '2.00', '+2.0', '2e0', padded, 'nan') (quick: 2.0, 1.0, x for every status; the rest with Success) - finite table, exhaustive"),
+    Cond(name="version_string", fn="version_string", params=[("v", "str"), ("is_request", "bool")],
+         pre=["len(v) <= 4"], partitions={"quick": [{"is_request": False}, {"is_request": True}]},
+         timeout={"quick": 300, "thorough": 900}, path_timeout=60,
+         functions=["response.StatusResponse._verify", "request.Request._verify", "validate.valid_instance"],
+         bounds="Version = ANY string of <= 4 characters (z3 string theory), response and request"),
     Cond(name="request_version", fn="request_version", params=[("kind", "int"), ("version", "int")],
          pre=["0 <= kind < 3", "0 <= version < %d" % len(VERSIONS)],
          partitions={"quick": [{}]}, timeout={"quick": 200, "thorough": 300},
